@@ -88,6 +88,11 @@ class PathDependency(Dependency, ABC):
         return f"{self.complete_pretty_name} @ {path_to_url(self.full_path)}"
 
     def _validate(self) -> str:
-        if not self._full_path.exists():
+        try:
+            exists = self._full_path.exists()
+        except OSError:
+            # e.g. a name longer than the file system allows
+            exists = False
+        if not exists:
             return f"Path {self._full_path} for {self.pretty_name} does not exist"
         return ""
